@@ -176,19 +176,51 @@ def distinct(U):
     return out
 
 
+def near_knot_nodes(U):
+    """parameters within round-off of an interior knot, on either side (closer than the 1e-9 / 1e-6 tolerances the library
+    uses for multiplicities and distinct knots): the span must still be decided by exact comparison"""
+    out = []
+    for k in distinct(U)[1:-1][:2]:
+        out += [k - F(1, 10 ** 12), k + F(1, 10 ** 12)]
+    return out
+
+
 def node_set(U, p, outside=True):
     """Both ends, every knot, span midpoints, points at distance 1/97 (of the span) from
-    each knot, and (optionally) points outside."""
+    each knot, points 1e-12 from the first interior knots, umax, and (optionally) four points outside."""
     ks = distinct(U)
     nodes = []
     for a, b in zip(ks[:-1], ks[1:]):
         h = b - a
         nodes += [a, a + h / 97, (a + b) / 2, b - h / 97]
+    nodes += near_knot_nodes(U)
     nodes.append(ks[-1])
     if outside:
         # clearly outside, and outside by less than any tolerance the library uses elsewhere (1e-6, 1e-9)
         nodes += [ks[0] - F(1, 2 * 10 ** 10), ks[-1] + F(1, 10 ** 10), ks[0] - F(1, 3), ks[-1] + F(1, 1000)]
     return nodes
+
+
+def basis_row(U, p, u):
+    """exact Cox-de Boor values N_{i,p}(u), i = 0..npts-1 (right-continuous, left limit at the last knot); generator-side
+    helper only - the oracle of every check is the Coq specification"""
+    n = len(U) - p - 1
+    last = max(i for i in range(len(U) - 1) if U[i] < U[i + 1])
+    N = [F(1) if (U[i] <= u < U[i + 1] or (u == U[-1] and i == last)) else F(0) for i in range(len(U) - 1)]
+    for j in range(1, p + 1):
+        M = []
+        for i in range(len(U) - 1 - j):
+            a = (u - U[i]) / (U[i + j] - U[i]) * N[i] if U[i + j] != U[i] else F(0)
+            b = (U[i + j + 1] - u) / (U[i + j + 1] - U[i + 1]) * N[i + 1] if U[i + j + 1] != U[i + 1] else F(0)
+            M.append(a + b)
+        N = M
+    return N[:n]
+
+
+def weights_one_at(U, p, W, u0):
+    """the weights scaled so that the weight function equals exactly 1 at u0"""
+    w0 = sum(n * w for n, w in zip(basis_row(U, p, u0), W))
+    return [w / w0 for w in W]
 
 
 def rand_q(rnd, lo=-5, hi=5, dens=(1, 2, 3, 4, 7)):
